@@ -72,3 +72,16 @@ package alertsHandler
 //@   ensures [cooldown-and-silence] implies(result0, cooldownOver && silenceMinutesOver)
 //@   ensures [not-sent-only-for-a-reason] implies(result1 == nil && !result0, (currentAlertState == alertutils.Normal && (alertNotification.LastAlertState == alertutils.Inactive || alertNotification.LastAlertState == alertutils.Normal)) || !cooldownOver || !silenceMinutesOver)
 //@ end
+
+// C20 (an alert fires iff its condition holds for the evaluated value): for a
+// grouped-measure result the condition and the threshold of the alert reach the
+// comparison unchanged (proved); that every bucket's value is compared by its
+// NUMBER, however it is delivered (number types, plain or humanized strings), is
+// text parsing and only covered by the bounded stand-in.
+//@ func evaluateMeasureResultsAlertCondition
+//@   props C20
+//@   assumecalleerequires
+//@   site call evaluateConditions #1:
+//@     assert [condition-and-threshold-reach-the-comparison-unchanged] arg1 == queryCond && (arg2 == alertValue || alertValue != alertValue)
+//@   bounded alertsHandler/measurecondition_test.go Test_Bounded_MeasureAlertCondition 10 values up to 1 234 567 890 in 6 representations (float64, int64, uint64, decimal string, humanized integer and humanized fraction), 3 conditions, thresholds just below / at / just above, first or second bucket (1080 evaluations): the verdict is the comparison of the numbers
+//@ end
